@@ -21,6 +21,8 @@ class TT(T):
             return self.extra
         if k == "selfdef":
             return self.extra  # e.g. Foo<T>
+        if k == "paren":
+            return "(%s)" % self.args[0].rust()
         if k == "lt_cow":
             return "Cow<%s, str>" % self.extra
         if k == "lt_str":
@@ -41,6 +43,8 @@ def src_text(t):
     k = t.kind
     if k in ("param", "selfdef", "lt_str", "lt_cow"):
         return TT.rust(t)
+    if k == "paren":
+        return "(%s)" % src_text(t.args[0])
     if k == "lt_ref":
         return "&%s %s" % (t.extra, src_text(t.args[0]))
     if k == "constarray":
@@ -63,6 +67,8 @@ def subst(t, env, self_concrete):
         return STR
     if k == "lt_cow":
         return T("cow_str")
+    if k == "paren":
+        return subst(t.args[0], env, self_concrete)
     if k == "lt_ref":
         return T("ref", [subst(t.args[0], env, self_concrete)])
     if k == "constarray":
@@ -121,6 +127,14 @@ class DefGen:
 
     # ------------------------------------------------------------------ field types
     def field_type(self, tparams, selfname, lifetimes, consts, value_mode, depth=2):
+        t = self.field_type0(tparams, selfname, lifetimes, consts, value_mode, depth)
+        # a redundantly parenthesised type is the same type with a different source text
+        if self.r.random() < 0.06 and t.kind not in ("phantom",):
+            self.stat("parenthesised_type")
+            return mk("paren", [t])
+        return t
+
+    def field_type0(self, tparams, selfname, lifetimes, consts, value_mode, depth=2):
         """template type for a member. value_mode: every instantiation must be encodable / sampleable"""
         r = self.r
         c = r.random()
@@ -169,7 +183,8 @@ class DefGen:
                 name = "r#" + k
         kind = r.choice(["struct", "struct", "enum"])
         ntp = r.choice([0, 0, 1, 1, 2, 3])
-        tparams = ["T", "U", "V"][:ntp]
+        # parameter names in declaration order, usually not alphabetical
+        tparams = r.sample(["T", "U", "V", "A", "K", "Z", "Key", "Val", "E"], ntp)
         lifetimes = ["'a"] if r.random() < 0.2 else []
         consts = ["N"] if (r.random() < 0.15) else []
         d = {"name": name, "mod": modpath, "kind": kind, "tparams": tparams, "lifetimes": lifetimes, "consts": consts, "value": value_mode,
